@@ -63,6 +63,7 @@ def step (st : St) (toks : List String) : St × String :=
   | "q" :: rest => (st, (query st rest).getD "bad-op")
   | "qx" :: rest => (st, (query st rest).getD "bad-op")
   | ["obs"] => (st, obs st)
+  | ["obsfresh"] => (st, obs st)   -- by c06_field_fresh a fresh index reports the same
   | ["repr", d] =>
     match d.toInt? with
     | some d =>
